@@ -235,6 +235,8 @@ class ProgGen:
             if x.ndim_n < 1 or y.ndim_n < 1:
                 return None
             ia, ib = [x.ndim_n - 1], [0]
+        if mal and not matmul and rng.random() < 0.3:
+            return self._tensordot_bad_dims()
         if mal:
             kind = rng.choice(["sig", "repeat", "range", "count"])
             if kind == "sig":
@@ -282,6 +284,48 @@ class ProgGen:
         if matmul and not mal:
             return self._do(model, lambda V: V[i] @ V[j] if cj == (0, 0) else yastn.tensordot(V[i], V[j], axes=(ia, ib), conj=cj), oracle, "matmul", (i, j), mal)
         return self._do(model, lambda V: yastn.tensordot(V[i], V[j], axes=(ia, ib), conj=cj), None if mal else oracle, "tensordot", (i, j), mal)
+
+    def _tensordot_bad_dims(self):
+        """ill-defined contractions that every policy has to reject: a contracted charge sector with different dimensions in the two
+        operands — on one leg, or on two legs with exchanged dimensions (then the products inside every fused sector coincide)"""
+        rng, yastn, cfg = self.rng, self.yastn, self.cfg
+        s0 = rng.choice([1, -1])
+        X = tgen.rand_leg(rng, cfg, self.symname, s=s0, max_dim=4)
+        for _ in range(20):
+            D2 = tuple(rng.randint(1, 4) for _ in X.D)
+            if D2 != tuple(X.D):
+                break
+        else:
+            return None
+        Y = yastn.Leg(cfg, s=s0, t=X.t, D=D2)
+        Z, W = rng.choice(self.pool), rng.choice(self.pool)
+        kind = rng.choice(["one-leg", "exchanged", "exchanged"])
+        if kind == "one-leg":
+            la, lb, axes = [X, Z], [Y.conj(), W], ((0,), (0,))
+        else:
+            la, lb, axes = [X, Y, Z], [Y.conj(), X.conj(), W], ((0, 1), (0, 1))
+        a = tgen.rand_tensor(rng, cfg, self.symname, la, cplx=self.cplx, drop=0.0, allow_empty=False)
+        b = tgen.rand_tensor(rng, cfg, self.symname, lb, cplx=self.cplx, drop=0.0, allow_empty=False)
+        # premise: a pair of blocks whose contracted charges all coincide (so that it enters the contraction) but whose
+        # contracted dimensions differ
+        ns = max(1, cfg.sym.NSYM)
+
+        def split(t):
+            return [tuple(t[k * ns:(k + 1) * ns]) for k in range(len(t) // ns)] if cfg.sym.NSYM else [() for _ in range(a.ndim_n)]
+        clash = False
+        for ta, Da in zip(a.struct.t, a.struct.D):
+            ca = split(ta) if cfg.sym.NSYM else [()] * len(Da)
+            for tb, Db in zip(b.struct.t, b.struct.D):
+                cb = split(tb) if cfg.sym.NSYM else [()] * len(Db)
+                if all(ca[p] == cb[q] for p, q in zip(*axes)) and any(Da[p] != Db[q] for p, q in zip(*axes)):
+                    clash = True
+        if not clash:
+            return None
+        i = self._push({"f": "input", "a": [], "tensor": tgen.to_model(a)}, a, opname="input")
+        j = self._push({"f": "input", "a": [], "tensor": tgen.to_model(b)}, b, opname="input")
+        msg = (f"tensordot over legs whose common charge sectors have different dimensions ({kind}: {tuple(X.D)} against {D2}) "
+               "was computed instead of being rejected")
+        return self._do(None, lambda V: yastn.tensordot(V[i], V[j], axes=axes), lambda r: ("must-reject", msg), "tensordot_bad_dims", (i, j), True)
 
     def op_matmul(self, mal):
         return self.op_tensordot(False, matmul=True)
@@ -888,6 +932,8 @@ def check_oracle(gen, st):
         return None
     kind = st.oracle[0]
     r = st.real
+    if kind == "must-reject":   # the oracle is only evaluated when the step was computed
+        return st.oracle[1]
     # exactness is claimed for integer-valued data only: with float operands (e.g. factors of an svd) compare to round-off
     exact_inputs = all(gen.representable(gen.vals[i]) or not isinstance(gen.vals[i], gen.yastn.Tensor) for i in st.args)
     if kind == "num":
